@@ -247,6 +247,12 @@ def coq_op(op, step):
                                              cbool(op['wavetable']), cbool(op['clear']))
     if o == 'b_normalize':
         return 'OBufNormalize %s %s %s' % (cnat(op['b']), pval(op['max']), cbool(op['wavetable']))
+    if o == 'b_send_list':
+        return 'OBufSendList %s %s %s' % (cnat(op['b']), pvals(op['values']), cz(op['start']))
+    if o == 'b_new_send_list':
+        return 'OBufNewSendList %s %s %s' % (oz(alloc_of(step, 'buf')), pvals(op['values']), cz(op['channels']))
+    if o == 'b_get_to_list':
+        return 'OBufGetToList %s %s %s' % (cnat(op['b']), cz(op['index']), oz(op['count']))
     if o == 'b_copy_data':
         return 'OBufCopyData %s %s %s %s %s' % (cnat(op['b']), cnat(op['dst']), cz(op['dst_start']), cz(op['start']), cz(op['n']))
     # buses
@@ -442,6 +448,7 @@ def monitors(h, out, default_group=1):
     nbus = 0
     node_ids = []               # creation index -> node id (None: constructor raised)
     buf_frames = {}             # creation index -> frames the Buffer object holds
+    buf_ch = {}
     bus_chans = {}
     cache = set()               # expected keys of Buffer._server_caches[server]
     lat = out['final'].get('latency')
@@ -488,11 +495,14 @@ def monitors(h, out, default_group=1):
             user_buses.update(range(op['index'], op['index'] + op['channels']))
         blocks_before = set(buf_blocks)
         # what this op creates (buffers)
-        if o in ('b_new', 'b_new_read', 'b_new_read_channel', 'b_new_cue') and st['exc'] is None:
+        if o == 'b_new_send_list':
+            op = dict(op, frames=-(-len(op['values']) // op['channels']))
+        if o in ('b_new', 'b_new_read', 'b_new_read_channel', 'b_new_cue', 'b_new_send_list') and st['exc'] is None:
             num = op.get('bufnum')
             if num is None:
                 num = [a[1] for a in st['alloc'] if a[0] == 'buf'][0]
-            buf_frames[nbuf] = op.get('frames') if o == 'b_new' else (op.get('size') if o == 'b_new_cue' else None)
+            buf_frames[nbuf] = op.get('frames') if o in ('b_new', 'b_new_send_list') else (op.get('size') if o == 'b_new_cue' else None)
+            buf_ch[nbuf] = op.get('channels', 1)
             buf_objs[nbuf] = num; nbuf += 1
             if op.get('cache', True):
                 cache.add(num)
@@ -562,6 +572,36 @@ def monitors(h, out, default_group=1):
             want_addr = 'NetAddr' if left == 0 else 'BundleNetAddr'
             if st['addr'] != want_addr:
                 bad.append((None, 'op %d (%s): server.addr is a %s after leaving the block (nesting depth now %d)' % (i, o, st['addr'], left)))
+        # multi-packet operations: declared counts = carried values, the packets tile the list / the requested range
+        if depth == 0 and st['exc'] is None and o in ('b_send_list', 'b_new_send_list'):
+            want = [float(Fraction(v['x'])) for v in op['values']]
+            pk = [m for m in msgs if m[0] == '/b_setn']
+            pos0 = None
+            carried = []
+            for m in pk:
+                a = m[1]
+                cnt, body = a[2][1], a[3:]
+                if cnt != len(body) or len(body) > 1626 or len(body) == 0:
+                    bad.append((None, 'op %d (%s): /b_setn at %s announces %s values and carries %d' % (i, o, a[1][1], cnt, len(body))))
+                if pos0 is None:
+                    pos0 = a[1][1]
+                elif a[1][1] != pos0 + len(carried):
+                    bad.append((None, 'op %d (%s): /b_setn packets do not tile the list: packet at %s after %d values from %s' % (i, o, a[1][1], len(carried), pos0)))
+                carried += [float(Fraction(x[1])) for x in body]
+            if carried != want:
+                bad.append((None, 'op %d (%s): the packets carry %d values, the list has %d (or different values)' % (i, o, len(carried), len(want))))
+        if depth == 0 and st['exc'] is None and o == 'b_get_to_list':
+            pk = [m for m in msgs if m[0] == '/b_getn']
+            pos = op['index']
+            for m in pk:
+                a = m[1]
+                if a[1][1] != pos or not (1 <= a[2][1] <= 1633):
+                    bad.append((None, 'op %d: /b_getn requests %s values at %s, expected the next request at %s' % (i, a[2][1], a[1][1], pos)))
+                pos += a[2][1]
+            fr = buf_frames.get(op['b'])
+            total = op['count'] if op['count'] is not None else (fr * buf_ch.get(op['b'], 1) if fr is not None else None)
+            if total is not None and pos != op['index'] + max(total, 0):
+                bad.append((None, 'op %d: /b_getn requests cover up to %s, requested range ends at %s' % (i, pos, op['index'] + total)))
         # node objects: own ids, numeric targets, no id burnt
         nallocs = [a[1] for a in st['alloc'] if a[0] == 'node']
         if st['exc'] is None:
@@ -817,7 +857,25 @@ def bind_metamorphic(h, out, flat_out):
 
 # ---------------------------------------------------------------------------
 
+def _sv(n, a=0):
+    return [{'v': 'f', 'x': str(Fraction((a + k) % 7, 4))} for k in range(n)]
+
+
 FIXED_HISTORIES = [
+    # multi-packet operations around the packet sizes (1626 values per /b_setn, 1633 per /b_getn), mono and multichannel, offsets
+    {'cls': 'valid', 'tags': ['fixed:streaming'], 'ops': [
+        {'op': 'b_new', 'frames': 5000, 'channels': 1, 'compl': None},
+        {'op': 'b_new', 'frames': 2000, 'channels': 2, 'compl': None},
+        {'op': 'b_send_list', 'b': 0, 'values': _sv(1625), 'start': 0},
+        {'op': 'b_send_list', 'b': 0, 'values': _sv(1626, 1), 'start': 2},
+        {'op': 'b_send_list', 'b': 0, 'values': _sv(1627, 2), 'start': 0},
+        {'op': 'b_send_list', 'b': 1, 'values': _sv(2000, 3), 'start': 5},
+        {'op': 'b_new_send_list', 'values': _sv(3253, 4), 'channels': 3},
+        {'op': 'b_new_send_list', 'values': _sv(1, 5), 'channels': 1},
+        {'op': 'b_get_to_list', 'b': 0, 'index': 0, 'count': None},
+        {'op': 'b_get_to_list', 'b': 1, 'index': 7, 'count': 1633},
+        {'op': 'b_get_to_list', 'b': 1, 'index': 0, 'count': 1634},
+        {'op': 'b_get_to_list', 'b': 2, 'index': 0, 'count': None}]},
     # the two histories of DESIGN.md section 6 (F14, F15) and the cue order, always replayed first
     {'cls': 'valid', 'tags': ['fixed:F14'], 'ops': [
         {'op': 'b_new', 'frames': 16, 'channels': 1, 'compl': None},
